@@ -283,7 +283,7 @@ def build_calc(o, cls, coll, wc, nuntil):
             continue
         kept.append(st)
     dropped = len(node.body) - len(kept)
-    assert dropped == 2, dropped
+    o.shape('the extraction drops exactly the two bookkeeping statements of __init__', dropped == 2, dropped)
     node.body = kept
     f = Func(node, c.mod, None, f"{c.mod.name}::{c.name}.__init__", obj, c)
     I.call_func(f, [coll, wc], {})
@@ -299,7 +299,7 @@ def compute_beta(o):
     ps = o.paths(lambda: o.I.call(o.func(PC + 'compute_beta'), [SV(PA)]))
     rets = [p for p in ps if p.kind == 'return']
     raises = [p for p in ps if p.kind == 'raise']
-    o.prove('one returning and one raising path', z3.BoolVal(len(rets) == 1 and len(raises) == 1 and raises[0].exc.exc_type == 'RuntimeError'))
+    o.shape('one returning and one raising path', len(rets) == 1 and len(raises) == 1 and raises[0].exc.exc_type == 'RuntimeError', [(p.kind, getattr(p.exc, 'exc_type', None)) for p in ps])
     rec = o.I.root_records[-1]
     p = rets[0]
     o.take_side_obligations(p, 'compute_beta')
